@@ -179,6 +179,17 @@ def register(lib):
                 i += 1
         return new_string(out)
 
+    @reg(r'^String::as_bytes$|^core::str::<impl str>::as_bytes$', 'str::as_bytes (same buffer viewed as bytes; ASCII content assumed by callers that index it)')
+    def _as_bytes(fr, name, args, ops):
+        v = args[0]
+        if type(v) is Ptr:
+            s_ = v.c[v.k]
+            if type(s_) is L and s_.tag == 'String':
+                return SliceRef(s_[0], 0, len(s_[0]), False)
+        if type(v) is SliceRef:
+            return SliceRef(v.c, v.start, v.len, False)
+        raise Unsupported('as_bytes of %r' % (v,))
+
     @reg(r'^core::str::<impl str>::chars$', 'str::chars')
     def _chars(fr, name, args, ops):
         items = str_items(args[0])
